@@ -461,11 +461,13 @@ int ConnectedDescriptor::Receive(
           OLA_WARN << "read failed, " << WSAGetLastError();
           return -1;
         }
+        // interrupted, try again
+        continue;
       } else if (ret == 0) {
         return 0;
       }
       data_read += ret;
-      data += data_read;
+      data += ret;
     } else {
       OLA_WARN << "Descriptor type not implemented for reading: "
                << ReadDescriptor().m_type;
@@ -480,11 +482,13 @@ int ConnectedDescriptor::Receive(
         OLA_WARN << "read failed, " << strerror(errno);
         return -1;
       }
+      // interrupted, try again
+      continue;
     } else if (ret == 0) {
       return 0;
     }
     data_read += ret;
-    data += data_read;
+    data += ret;
   }
 #endif  // _WIN32
   return 0;
